@@ -21,6 +21,10 @@ IMPLEMENTED = {
             'deterministic simulation: single-client history simulator with the garbage collector as an injected event, explicit reference drops, gremlin finalizers acting during collection, injected allocator/destructor/initializer/exporter failures; reference-graph model checked after every operation; glibc malloc poisoning',
             'Seeded search over operation histories with GC events, reference cycles and injected failures against a reference-graph model that knows exactly when each object must be alive, released or dead; checks destructor/free call counts, release idempotence, export locks, memory validity and handle identity after every op.',
             'CPython reference-counting semantics (acyclic objects die at drop, cyclic garbage at the next collect); harness fakes for allocators/destructors/exporters; PEP 688 exporters are kept alive by the harness because CPython 3.12.1 itself crashes when their inner memoryview is collected while exported.'),
+    'C27': ('H', 'exploration', 'DESIGN.md 3.7',
+            'deterministic simulation: history simulator over type-building operations with GC as an injected event, FFI drops, address-reuse churn and gremlin finalizers that rebuild types during a collection; structural-description vs identity invariant after every operation',
+            'Seeded search over histories of building, dropping and collecting derived ctypes through every construction route (Python parser, C parser, backend constructors, cdata), including rebuilding a type inside a finalizer while its predecessor is being collected; after every op all reachable ctypes must be pairwise distinct in structure.',
+            'Only ctypes reachable from the harness slots are compared; aggregates/enums by identity; CPython weakref/GC ordering semantics.'),
 }
 
 PENDING = {
